@@ -283,6 +283,41 @@ def run(ctx):
         stats["log10_alpha_hist"][la] = stats["log10_alpha_hist"].get(la, 0) + 1
         lc = int(math.floor(math.log10(h["cond"]))) if math.isfinite(h["cond"]) else 99
         stats["log10_cond_hist"][lc] = stats["log10_cond_hist"].get(lc, 0) + 1
+    # small-alpha family (oracle only): rank-deficient training covariance with alpha down to
+    # 1e-13 x its largest eigenvalue.  The regularised covariance is then still inverted in full
+    # (numpy's pinv cuts at ~1e-15), the closed form holds with a conditioning-scaled tolerance,
+    # and the rigidities must not decrease when alpha grows.  Too ill-conditioned for the
+    # hypothesis-residual check of the Coq correspondence, hence compared by the oracle alone.
+    n_small = 40 if ctx.quick else 400
+    stats["small_alpha_cases"] = 0
+    for _ in range(n_small):
+        c = gen_case(ctx.rng, ctx.quick)
+        d = len(c["train"][0][0])
+        if d < 3:
+            continue
+        c["train"] = c["train"][:max(1, d - 2)]
+        c["rank_only"] = False
+        c["small_alpha"] = True
+        a1 = 10.0 ** ctx.rng.uniform(-13.0, -10.5)
+        outs_a = []
+        for a in (a1, a1 * 30.0):
+            ca = dict(c, alpha=a)
+            ra = run_impl(ca)
+            msg = oracle(ca, ra)
+            if msg:
+                C.report_violation(ctx, "C20 fails on the implementation (small alpha, rank-deficient covariance): " + msg,
+                                   dict(case=ca, observed=ra), found_input=True)
+                break
+            outs_a.append(ra)
+        else:
+            stats["small_alpha_cases"] += 1
+            key = "lpr" if c["kind"] == "lpr" else "lcpr"
+            lo = np.concatenate([np.ravel(np.asarray(x, float)) for x in outs_a[0][key]]) if outs_a[0].get(key) is not None else None
+            hi = np.concatenate([np.ravel(np.asarray(x, float)) for x in outs_a[1][key]]) if outs_a[1].get(key) is not None else None
+            if lo is not None and hi is not None and lo.shape == hi.shape and np.any(hi < lo * (1 - 1e-3)):
+                C.report_violation(ctx, "C20 fails on the implementation: rigidities decrease when alpha grows from %g to %g" % (a1, a1 * 30),
+                                   dict(case=dict(c, alpha=a1), observed=outs_a[0], observed_larger_alpha=outs_a[1]),
+                                   found_input=True)
     idx = [i for i, r in enumerate(recs) if "error" not in r]
     per = 60 if ctx.quick else 120
     groups = [idx[i:i + per] for i in range(0, len(idx), per)]
